@@ -73,6 +73,14 @@ class Cache:
         if cached.attributes.index() != route.attributes.index():
             return False
 
+        # the index of a labelled or VPN NLRI leaves the label stack out: the same prefix announced again with
+        # another label is not a duplicate, the peer has to be told (it was dropped and kept the old label)
+        if cached.nlri is not route.nlri:
+            from exabgp.bgp.message.open.capability.negotiated import Negotiated
+
+            if bytes(cached.nlri.pack_nlri(Negotiated.UNSET)) != bytes(route.nlri.pack_nlri(Negotiated.UNSET)):
+                return False
+
         # Use route.nexthop (nexthop is stored in Route, not NLRI)
         # Use getattr for safety since some NLRIs may not have nexthop
         try:
